@@ -296,6 +296,9 @@ fn session_scn(sess: Sess, full: bool, pairs: bool) -> ChatScn {
     s.slots = 4;
     s.prelude.push((2, "JOIN #z".into()));
     s.prelude.push((3, "JOIN #z".into()));
+    // the bystanders' channel is invite-only and moderated: the actor, an outsider there, names
+    // it in INVITE, KICK, TOPIC, MODE ... all the same
+    s.prelude.push((2, "MODE #z +im".into()));
     // bob has a nick history (one record for "bob", one for "bobby"): history-reading
     // commands with counts below, at and above the number of records
     s.prelude.push((1, "NICK bobby".into()));
